@@ -357,6 +357,21 @@ def run_check(suite, pid, tier, seed):
     cov["theorems"] = proofs["theorems"]
     cov["coq_files"] = proofs["files"]
     cov["proof_wall_s"] = proofs["wall_s"]
+    if tier == "thorough" and proofs["ok"]:
+        # independent re-check of the compiled theories with coqchk (lists every axiom of every
+        # loaded library; the per-theorem Print Assumptions above is the authority for the property)
+        mod = "F8." + suite.PROPS_FILE[:-2].replace("/", ".")
+        try:
+            rc_chk, out_chk = B.run(["timeout", "1500", "coqchk", "-o", "-silent", "-Q", ".", "F8", mod],
+                                    cwd=B.COQDIR, timeout=1600, check=False, quiet=True)
+            cov["coqchk"] = {"cmd": "coqchk -o -silent -Q . F8 " + mod, "ok": rc_chk == 0,
+                             "output": re.sub(r"[ \t]+", " ", out_chk)[-1500:]}
+            if rc_chk != 0 and rc_chk != 124:
+                proofs["ok"] = False
+                proofs["log"] += "\ncoqchk failed: " + out_chk[-1500:]
+                cov["discharged"] = 0
+        except Exception as e:
+            cov["coqchk"] = {"error": str(e)[:300]}
 
     # 2. build implementation + model
     try:
